@@ -86,16 +86,24 @@ options:
 '''
 
 
-def link_two(work, p1, p2, with_clock):
-    """two tracers generated with CLI prefixes p1/p2 from the same configuration, linked into one program"""
+def link_two(work, p1, p2, with_clock, files=None):
+    """two tracers generated from the same configuration with identifier prefixes p1/p2 — given on the command line
+    (`--prefix`), or, when `files` = (file name prefix 1, file name prefix 2) is given, by the object form of the
+    configuration's `prefix` option — linked into one program"""
     y = LINK_CFG % {'clocks': 'clock-types:\n      clk: {$c-type: uint32_t}' if with_clock else '',
                     'defclk': '$default-clock-type-name: clk' if with_clock else ''}
-    d = os.path.join(work, f'link_{p1}_{p2}_{int(with_clock)}')
-    rc1, e1, g1 = cli_generate(y, os.path.join(d, 'a'), p1)
-    rc2, e2, g2 = cli_generate(y, os.path.join(d, 'b'), p2)
+    d = os.path.join(work, f'link_{p1}_{p2}_{int(with_clock)}_{"o" if files else "c"}')
+    if files:
+        ys = [y.replace('  code-generation:\n', '  code-generation:\n    prefix: {identifier: %s, file-name: "%s"}\n' % (p, f))
+              for p, f in zip((p1, p2), files)]
+        rc1, e1, g1 = cli_generate(ys[0], os.path.join(d, 'a'))
+        rc2, e2, g2 = cli_generate(ys[1], os.path.join(d, 'b'))
+    else:
+        rc1, e1, g1 = cli_generate(y, os.path.join(d, 'a'), p1)
+        rc2, e2, g2 = cli_generate(y, os.path.join(d, 'b'), p2)
     if rc1 or rc2:
         return 'generation failed: ' + (e1 + e2)[:300], None
-    f1, f2 = p1.rstrip('_'), p2.rstrip('_')
+    f1, f2 = files if files else (p1.rstrip('_'), p2.rstrip('_'))
     clk = ('static uint32_t tick; static uint32_t clkcb(void *d) { (void) d; return ++tick; }' if with_clock else '')
     setclk = ('k1.clk_clock_get_value = clkcb; k2.clk_clock_get_value = clkcb;' if with_clock else '')
     with open(os.path.join(d, 'main.c'), 'w') as f:
@@ -246,6 +254,18 @@ def run(c):
             elif outs and len(outs) == 2 and not wc and outs[0] != outs[1]:
                 c.violation({'property': 'C19', 'kind': 'two tracers of the same configuration linked together produce different '
                              'streams', 'prefixes': [p1, p2], 'streams': outs})
+    # the same with the object form of the `prefix` option: identifier and file name prefixes chosen independently
+    # (file name prefixes need not be identifiers: the documentation's own example is `acme-corp`)
+    for (p1, f1), (p2, f2) in [(('net_', 'tracer-net'), ('disk_', 'tracer-disk')), (('a_', 'acme-corp'), ('b_', 'acme.corp2')),
+                               (('x_', 'one'), ('y_', 'two'))]:
+        err, outs = link_two(work, p1, p2, False, files=(f1, f2))
+        stats['two_tracer_links'] += 1
+        if err:
+            c.violation({'property': 'C19', 'kind': 'two tracers with different identifier and file name prefixes (object form of '
+                         'the prefix option) do not link/run', 'prefixes': [[p1, f1], [p2, f2]], 'detail': err})
+        elif outs and len(outs) == 2 and outs[0] != outs[1]:
+            c.violation({'property': 'C19', 'kind': 'two tracers of the same configuration linked together produce different '
+                         'streams', 'prefixes': [[p1, f1], [p2, f2]], 'streams': outs})
     c.coverage.update({'correspondence': stats, 'evaluations': sum(stats.values()), 'disagreements_checked': stats['symbol_differences'] + stats['file_name_differences'],
                        'samples': [{'config_seed': cs.seed, 'prefix': cs.ir['prefix'], 'default': cs.ir['default']} for cs in cases[:4]]})
     if not c.violations and not ob['ok']:
